@@ -188,6 +188,11 @@ def _min_job(job):
     return mz.minimise(plan, key, 80)
 
 
+def _entries():
+    from .catalogue import ENTRIES
+    return ENTRIES
+
+
 def write_evidence(results, seed, tier, wall, nviol, extra=None):
     tot = collections.Counter()
     digests = set()
@@ -201,6 +206,7 @@ def write_evidence(results, seed, tier, wall, nviol, extra=None):
     calls = collections.Counter()
     samples = []
     herr = 0
+    byname = collections.Counter()
     cpu = 0.0
     for r in results:
         if 'harness_error' in r:
@@ -220,6 +226,7 @@ def write_evidence(results, seed, tier, wall, nviol, extra=None):
         cpu += r['wall']
         for x in r['rejects']:
             rej[x[0]] += 1
+        byname.update(r['calls_by_name'])
         if 'plan' in r and len(samples) < 3 and not r['violations']:
             p = r['plan']
             ops_ = p.get('ops') or [o for t in p.get('tasks', []) for o in t]
@@ -270,6 +277,10 @@ def write_evidence(results, seed, tier, wall, nviol, extra=None):
         'module_state_digests': tot.get('module_digests', 0),
         'mutators_applied': tot.get('mutator_applied', 0),
         'catalogue_groups_exercised': entries_hit,
+        'catalogue_entries_total': len(_entries()),
+        'catalogue_entries_exercised': len([n for n in _entries() if byname.get(n)]),
+        'catalogue_entries_never_completed': sorted(n for n in _entries() if not byname.get(n))[:40],
+        'least_exercised_entries': sorted(((byname.get(n, 0), n) for n in _entries()))[:8],
         'catalogue_entries_unavailable': tot.get('entry_unavailable', 0),
         'ops_skipped': tot.get('op_skipped', 0),
         'domain_rejects_by_callable': dict(rej.most_common(25)),
